@@ -216,11 +216,20 @@ def worker(task):
         tmpdir = tempfile.mkdtemp(prefix="pyvc-")
         # group identical names with an index
         seen = {}
+        failures = 0
+        t_solve = time.time()
         for ob in res.obligations:
             idx = seen.get(ob.name, 0)
             seen[ob.name] = idx + 1
             name = ob.name if idx == 0 else f"{ob.name}#{idx}"
+            if failures >= 3 or (failures and time.time() - t_solve > 6 * budget_s):
+                # the verdict for this function is settled: do not burn solver time on the rest
+                out["obligations"].append({"name": name, "kind": ob.kind, "status": "skipped", "solver": "-", "time": 0.0,
+                                           "clause": ob.info.get("clause", ""), "raised": ob.info.get("raised")})
+                continue
             status, solver, dt, model, smt2 = solve_obligation(ob, budget_s, tmpdir, re.sub(r"\W+", "_", name))
+            if status != "unsat":
+                failures += 1
             rec = {"name": name, "kind": ob.kind, "status": status, "solver": solver, "time": round(dt, 3),
                    "clause": ob.info.get("clause", ""), "raised": ob.info.get("raised")}
             if tier == "thorough" and status == "unsat" and solver.startswith("z3") and mutation is None:
@@ -445,6 +454,8 @@ def main(argv=None):
                                     "solver": o["solver"], "time_s": o["time"]})
             elif o["status"] == "sat":
                 refuted.append((key, o))
+            elif o["status"] == "skipped":
+                total -= 1
             else:
                 undecided.append({"function": key, "obligation": o["name"], "reason": "solver: unknown/timeout", "clause": o["clause"][:160]})
 
@@ -456,16 +467,21 @@ def main(argv=None):
     if "--record-baseline" in argv:
         rec = {}
         for key, out in sorted(results.items()):
-            rec[key] = {"digest": out["digest"],
-                        "discharged": {o["name"]: o["time"] for o in out["obligations"] if o["status"] == "unsat"}}
+            byname = {}
+            for o in out["obligations"]:
+                b = o["name"].split("#")[0]
+                ok, tmax = byname.get(b, (True, 0.0))
+                byname[b] = (ok and o["status"] == "unsat", max(tmax, o["time"]))
+            rec[key] = {"digest": out["digest"], "discharged": {b: t for b, (ok, t) in byname.items() if ok}}
         bpath.parent.mkdir(exist_ok=True)
         bpath.write_text(json.dumps(rec, indent=1, sort_keys=True))
     still_undecided = []
     for u in undecided:
         b = baseline.get(u["function"])
         out = results.get(u["function"], {})
-        if (b and "obligation" in u and u["obligation"] in b["discharged"] and b["digest"] != out.get("digest")
-                and b["discharged"][u["obligation"]] < 0.25 * budget):
+        base = u.get("obligation", "").split("#")[0]
+        if (b and "obligation" in u and base in b["discharged"] and b["digest"] != out.get("digest")
+                and b["discharged"][base] < 0.25 * budget):
             o = next(x for x in out["obligations"] if x["name"] == u["obligation"])
             o["status"] = "no-longer-dischargeable"
             refuted.append((u["function"], o))
@@ -476,7 +492,7 @@ def main(argv=None):
     guard_fail = []
     if total < min_obl and not undecided and not refuted:
         guard_fail.append(f"obligation count {total} < recorded minimum {min_obl}")
-    for cr in canary_results:
+    for cr in ([] if (undecided or refuted) else canary_results):
         if cr["error"] and not cr["not_discharged"]:
             guard_fail.append(f"canary {cr['canary']} undecided: {cr['error']}")
         elif not cr["not_discharged"]:
